@@ -251,7 +251,7 @@ func multisetKey(kvs []kvJ) string {
 
 func runDirectSort(r *hk.Run, rng *hk.Rand) {
 	n := r.Scale(50000, 400000)
-	emitEvery := n / r.Scale(1000, 12000)
+	emitEvery := n / r.Scale(500, 12000)
 	for i := 0; i < n; i++ {
 		sz := genSize(rng)
 		names := genNames(rng, sz)
